@@ -756,8 +756,12 @@ def step (st : DState) (line : String) : DState × Option String :=
         let cl := (d.clusters.toArray.qsort fun a b => a.tid < b.tid).toList
         showDGraph d.main ++ s!" {cl.length}" ++
           String.join (cl.map fun c => s!" {c.tid} {if c.positive then 1 else 0}" ++ showDGraph c.g)
+      -- the hypothesis of `picture_is_faithful`: the start state is not accepting (the picture has no
+      -- way to show an accepting start state: its label never carries a token type)
+      let startAcc := M.dfa.isEnd 0 || M.las.any fun p => p.2.dfa.isEnd 0
       (st, some ("dottext done\n" ++
-        (match parseDot text with
+        (if startAcc then "S FAIL the start state of a compiled automaton of this mode is accepting, which the picture cannot show (its label carries no token type): accepting labels differ from the accepting states" else
+        match parseDot text with
         | none => "S FAIL the written file is not well-formed DOT (rejected by the verified parser parseDot)"
         | some t =>
           match decodeDot t with
